@@ -34,6 +34,11 @@ def io(filters, **kw):
     g.update(kw)
     return g
 
+def serde(filters, features=("half",), **kw):
+    g = {"crate": "serde", "features": list(features), "filters": filters, "zflags": ["stubbing"]}
+    g.update(kw)
+    return g
+
 PROPS = {
     "C01": {
         "title": "value round-trip of the built-in codecs",
@@ -168,6 +173,7 @@ PROPS["S-core-alloc"] = {"title": "scratch: core[half,alloc]", "groups": [core([
 PROPS["S-core-std"] = {"title": "scratch: core[half,std]", "groups": [core(["zz_"], features=("half", "std"))]}
 PROPS["S-core-none"] = {"title": "scratch: core[]", "groups": [core(["zz_"], features=())]}
 PROPS["S-io"] = {"title": "scratch: io", "groups": [io(["zz_"])]}
+PROPS["S-serde"] = {"title": "scratch: serde", "groups": [serde(["zz_"])]}
 PROPS["S-derive"] = {"title": "scratch: derive", "groups": [derive(["zz_"])]}
 
 _NA = {
